@@ -563,24 +563,26 @@ type dacc = { dval : coq_N; dov : bool; dpanic : bool }
 
 let dec_push a d =
   let m = N.mul a.dval (Npos (Coq_xO (Coq_xI (Coq_xO Coq_xH)))) in
-  let ov = N.leb two128 m in
-  let v1 = if ov then N0 else m in
+  let ov1 = N.leb two128 m in
+  let v1 = if ov1 then N0 else m in
   let s = N.add v1 d in
-  { dval = (N.modulo s two128); dov = ((||) a.dov ov); dpanic =
-  ((||) a.dpanic (N.leb two128 s)) }
+  let ov2 = N.leb two128 s in
+  { dval = (if ov2 then N0 else s); dov = ((||) ((||) a.dov ov1) ov2);
+  dpanic = a.dpanic }
 
-(** val scan_dec :
-    dacc -> coq_N -> coq_N list -> (dacc * coq_N) * coq_N list **)
+(** val scan_dec_with :
+    (dacc -> coq_N -> dacc) -> dacc -> coq_N -> coq_N list ->
+    (dacc * coq_N) * coq_N list **)
 
-let rec scan_dec a e l = match l with
+let rec scan_dec_with push a e l = match l with
 | [] -> ((a, e), [])
 | y :: r ->
   (match dec_digit y with
-   | Some d -> scan_dec (dec_push a d) (N.add e (Npos Coq_xH)) r
+   | Some d -> scan_dec_with push (push a d) (N.add e (Npos Coq_xH)) r
    | None ->
      if N.eqb y (Npos (Coq_xI (Coq_xI (Coq_xI (Coq_xI (Coq_xI (Coq_xO
           Coq_xH)))))))
-     then scan_dec a (N.add e (Npos Coq_xH)) r
+     then scan_dec_with push a (N.add e (Npos Coq_xH)) r
      else ((a, e), l))
 
 (** val suffixed : coq_N -> coq_N list -> coq_N -> coq_N -> action **)
@@ -590,13 +592,14 @@ let suffixed v sfx i e2 =
   | Some p -> ATok (KSuffixedInteger, (Z.of_N v), (Some (TyPrim p)), e2)
   | None -> AErr (coq_E141, i, e2)
 
-(** val lex_decimal : coq_N -> coq_N list -> coq_N -> step **)
+(** val lex_decimal_with :
+    (dacc -> coq_N -> dacc) -> coq_N -> coq_N list -> coq_N -> step **)
 
-let lex_decimal x r i =
+let lex_decimal_with push x r i =
   let a0 = { dval = (N.coq_land x (Npos (Coq_xI (Coq_xI (Coq_xI Coq_xH)))));
     dov = false; dpanic = false }
   in
-  let (p, r1) = scan_dec a0 (N.add i (Npos Coq_xH)) r in
+  let (p, r1) = scan_dec_with push a0 (N.add i (Npos Coq_xH)) r in
   let (a, e1) = p in
   let (sfx, r2) = span_while is_ident_cont r1 in
   let e2 = N.add e1 (lenN sfx) in
@@ -906,9 +909,10 @@ let lex_literal fuel is_char q r i =
     let (s, e) = p0 in mk_step (finish_lit is_char i s e) r' e
   | None -> mk_step AFuel r (N.add i (Npos Coq_xH))
 
-(** val lex_step : nat -> coq_N -> coq_N list -> coq_N -> step **)
+(** val lex_step_with :
+    (dacc -> coq_N -> dacc) -> nat -> coq_N -> coq_N list -> coq_N -> step **)
 
-let lex_step fuel x r i =
+let lex_step_with push fuel x r i =
   let e = N.add i (Npos Coq_xH) in
   if (||)
        ((||)
@@ -956,7 +960,7 @@ let lex_step fuel x r i =
                                    (Coq_xO (Coq_xI Coq_xH)))))) (Npos (Coq_xI
                                    (Coq_xO (Coq_xO (Coq_xI (Coq_xI
                                    Coq_xH)))))) x
-                              then lex_decimal x r i
+                              then lex_decimal_with push x r i
                               else if N.eqb x (Npos (Coq_xI (Coq_xI (Coq_xI
                                         (Coq_xO (Coq_xO Coq_xH))))))
                                    then lex_literal fuel true (Npos (Coq_xI
@@ -1007,11 +1011,11 @@ let lr_panic p0 = function
 | AllocFail p -> AllocFail ((||) p0 p)
 | Done (l, a, c, p) -> Done (l, a, c, ((||) p0 p))
 
-(** val lex_loop :
-    nat -> coq_N list -> coq_N -> coq_N -> coq_N -> coq_N -> coq_N -> coq_N
-    -> coq_N -> coq_N -> loop_result **)
+(** val lex_loop_with :
+    (dacc -> coq_N -> dacc) -> nat -> coq_N list -> coq_N -> coq_N -> coq_N
+    -> coq_N -> coq_N -> coq_N -> coq_N -> coq_N -> loop_result **)
 
-let rec lex_loop fuel rest pos ln sol ntok npay nerr cap errcap =
+let rec lex_loop_with push fuel rest pos ln sol ntok npay nerr cap errcap =
   match fuel with
   | O -> OutOfFuel
   | S f ->
@@ -1021,30 +1025,32 @@ let rec lex_loop fuel rest pos ln sol ntok npay nerr cap errcap =
        then AllocFail false
        else Done ([], ln, sol, false)
      | x :: r ->
-       let s = lex_step f x r pos in
+       let s = lex_step_with push f x r pos in
        lr_panic s.spanic
          (match s.act with
           | ASkip ->
-            lex_loop f s.srest s.send ln sol ntok npay nerr cap errcap
+            lex_loop_with push f s.srest s.send ln sol ntok npay nerr cap
+              errcap
           | ANewline ->
-            lex_loop f s.srest s.send (N.add ln (Npos Coq_xH))
+            lex_loop_with push f s.srest s.send (N.add ln (Npos Coq_xH))
               (N.add pos (Npos Coq_xH)) ntok npay nerr cap errcap
           | ATok (k, v, ty, en) ->
             if (||) ((&&) (has_payload k) (N.leb coq_MAX_NUM_PAYLOADS npay))
                  (N.leb cap ntok)
             then AllocFail false
             else lr_cons (mk_tok k v ty pos en ln sol)
-                   (lex_loop f s.srest s.send ln sol
+                   (lex_loop_with push f s.srest s.send ln sol
                      (N.add ntok (Npos Coq_xH))
                      (if has_payload k then N.add npay (Npos Coq_xH) else npay)
                      nerr cap errcap)
           | AErr (c, st, en) ->
             if N.leb errcap nerr
-            then lex_loop f s.srest s.send ln sol ntok npay nerr cap errcap
+            then lex_loop_with push f s.srest s.send ln sol ntok npay nerr
+                   cap errcap
             else if N.leb cap ntok
                  then AllocFail false
                  else lr_cons (mk_tok KError c None st en ln sol)
-                        (lex_loop f s.srest s.send ln sol
+                        (lex_loop_with push f s.srest s.send ln sol
                           (N.add ntok (Npos Coq_xH)) npay
                           (N.add nerr (Npos Coq_xH)) cap errcap)
           | AFuel -> OutOfFuel))
@@ -1064,22 +1070,23 @@ type lex_outcome =
 | LexTooLong
 | LexRun of loop_result
 
-(** val lex_result : coq_N list -> lex_outcome **)
+(** val lex_result_with :
+    (dacc -> coq_N -> dacc) -> coq_N list -> lex_outcome **)
 
-let lex_result src =
+let lex_result_with push src =
   let len = lenN src in
   if N.eqb len N0
   then LexEmpty
   else if N.ltb coq_MAX_SOURCE_LEN len
        then LexTooLong
        else LexRun
-              (lex_loop (S (length src)) src N0 (Npos Coq_xH) N0 N0 (Npos
-                Coq_xH) N0 (token_capacity len) (error_capacity len))
+              (lex_loop_with push (S (length src)) src N0 (Npos Coq_xH) N0 N0
+                (Npos Coq_xH) N0 (token_capacity len) (error_capacity len))
 
-(** val lex_delta : coq_N list -> tok list **)
+(** val lex_delta_with : (dacc -> coq_N -> dacc) -> coq_N list -> tok list **)
 
-let lex_delta src =
-  match lex_result src with
+let lex_delta_with push src =
+  match lex_result_with push src with
   | LexEmpty -> (err_tok0 coq_E101) :: []
   | LexTooLong -> (err_tok0 coq_E102) :: []
   | LexRun r ->
@@ -1088,12 +1095,23 @@ let lex_delta src =
      | AllocFail _ -> (err_tok0 coq_E103) :: []
      | Done (toks, _, _, _) -> toks)
 
-(** val num_end_tokens : coq_N list -> coq_N **)
+(** val num_end_tokens_with :
+    (dacc -> coq_N -> dacc) -> coq_N list -> coq_N **)
 
-let num_end_tokens src =
-  match lex_result src with
+let num_end_tokens_with push src =
+  match lex_result_with push src with
   | LexRun r ->
     (match r with
      | Done (_, _, _, _) -> Npos (Coq_xO Coq_xH)
      | _ -> N0)
   | _ -> N0
+
+(** val lex_delta : coq_N list -> tok list **)
+
+let lex_delta =
+  lex_delta_with dec_push
+
+(** val num_end_tokens : coq_N list -> coq_N **)
+
+let num_end_tokens =
+  num_end_tokens_with dec_push
